@@ -15,7 +15,7 @@ def check(spec):
     replace_all = spec.get('replace_all', False)
     before = [repl.snapshot(x) for x in (S, sp, rp)]
     try:
-        res, num = repl.do_replace(case, sp, rp, seed=spec.get('rng', 0), replace_fraction=f, replace_all=replace_all, **({'atol': spec['atol']} if 'atol' in spec else {}))
+        res, num = repl.do_replace(case, sp, rp, seed=spec.get('rng', 0), replace_fraction=f, replace_all=replace_all, **({'atol': spec['atol']} if 'atol' in spec else {}), **({'verbose': True} if spec.get('verbose') else {}))
     except Exception as e:
         return "replace_pattern_in_structure raised %r" % (e,)
     after = [repl.snapshot(x) for x in (S, sp, rp)]
@@ -104,6 +104,9 @@ def specs(tier, seed):
     for pi, pair in enumerate(['swap-element', 'grow-shared', 'shrink-shared', 'disjoint']):
         for atol in (0.01, 0.02, 0.1):
             out.append(dict(cell=cells[(pi + 1) % len(cells)], pair=pair, copies=2, seed=seed * 100 + 60 + pi, f=1.0, replace_all=False, rng=pi, near_miss=1, atol=atol))
+    # progress printing switched on
+    for pi, pair in enumerate(['swap-element', 'grow-shared', 'shrink-shared', 'empty']):
+        out.append(dict(cell=cells[pi % len(cells)], pair=pair, copies=3, seed=seed * 100 + 40 + pi, f=1.0 if pi % 2 else 0.5, replace_all=False, rng=pi, verbose=True))
     # the replacement names its atom types differently; slightly distorted copies (retained atoms stay where they are)
     for pi, pair in enumerate(['swap-element', 'grow-shared', 'shrink-shared', 'grow-interleaved']):
         for noise in (0.0, 0.01):
